@@ -404,9 +404,9 @@ def proj_node(R, node):
     if ni is None:
         nei = []
     elif isinstance(ni, list):
-        nei = [i.id_number for i in ni]
+        nei = [getattr(i, "id_number", 0) for i in ni]     # (a faulty engine may schedule `False` as a customer)
     else:
-        nei = [ni.id_number]
+        nei = [getattr(ni, "id_number", 0)]
     d = {"c": INF if inf else int(c),
          "cap": capv(node.node_capacity),
          "q": [[i.id_number for i in pl] for pl in node.individuals],
